@@ -2,6 +2,7 @@
    `c13` models the repaired code (Cfg.fixed); `c13 legacy` the code as found. -/
 import TboxModel.Util
 import TboxModel.C13.Model
+import TboxModel.C13.Spec
 open Tbox.Util Tbox.C13
 
 def frontOp? (name : String) (ws : List String) : Option FrontOp :=
@@ -13,12 +14,29 @@ def frontOp? (name : String) (ws : List String) : Option FrontOp :=
   | "send", [] => some .send
   | _, _ => none
 
-/-- `s:<hex>` send, `f:<hex>` feed, `e` end session -/
+/-- `s:<hex>` send, `f:<hex>` feed, `e` end session, `d` delete the session -/
 def act? (t : String) : Option Act :=
   if t == "e" then some .endS
+  else if t == "d" then some .del
   else if t.startsWith "s:" then (bytesOfHex (t.drop 2).toString).map .send
   else if t.startsWith "f:" then (bytesOfHex (t.drop 2).toString).map .feed
   else none
+
+/-- the kernel's answers of one read event: `-`, or comma separated chunk sizes, optionally ended by a letter:
+`a` EAGAIN, `z` end of file, `r` ECONNRESET, `i` EINTR, `o` EIO -/
+def answers? (a : String) : Option (List Nat × Nat) :=
+  if a == "-" then some ([], 0)
+  else
+    let items := a.splitOn ","
+    let termOf (t : String) : Option Nat :=
+      if t == "a" then some 1 else if t == "z" then some 2 else if t == "r" then some 3 else if t == "i" then some 4
+      else if t == "o" then some 5 else none
+    match items.getLast? with
+    | none => none
+    | some l =>
+      match termOf l with
+      | some t => (items.dropLast.mapM String.toNat?).map fun cs => (cs, t)
+      | none => (items.mapM String.toNat?).map fun cs => (cs, 0)
 
 def parseOp (ws : List String) : Option Op :=
   match ws with
@@ -47,6 +65,14 @@ def parseOp (ws : List String) : Option Op :=
   | ["split", d] => do pure (.split (← bytesOfHex d))
   | ["wfault", k, m] => do pure (.wfault (← k.toNat?) (← m.toNat?))
   | ["xclose", k] => do pure (.xclose (← k.toNat?))
+  | ["xsock", k, d, a] => do
+      let r ← answers? a
+      pure (.xsock (← k.toNat?) (← bytesOfHex d) r.1 r.2)
+  | ["xconnf", k, e] => do pure (.xconnf (← k.toNat?) (← e.toNat?))
+  | ["ssplit", sp, d] => do pure (.ssplit (← bytesOfHex sp) (← bytesOfHex d))
+  | ["hexstr", d, n, u, dl] => do
+      let u ← u.toNat?
+      if u > 1 then none else pure (.hexstr (← bytesOfHex d) (← n.toNat?) (u == 1) (← bytesOfHex dl))
   | op :: rest =>
     if op.startsWith "t" then (frontOp? (op.drop 1).toString rest).map (.front true)
     else if op.startsWith "r" then (frontOp? (op.drop 1).toString rest).map (.front false)
@@ -80,6 +106,8 @@ structure RAcc where
   cur : Nat := 8
   tags : List String := []
   allTx : Str := []
+  txs : Array Str := Array.replicate 9 []                 -- per slot: everything sent to it during this op
+  sys : Array (List String) := Array.replicate 9 []       -- per slot: system call tokens, reversed
 
 /-- sessions on the recording connection (slots 0-3) share group 0, chronologically -/
 def grp (k : Nat) : Nat := if k < 4 then 0 else k
@@ -101,11 +129,18 @@ def RAcc.put (a : RAcc) (l : String) : RAcc :=
 
 /-- events → printed lines, grouped by session slot (as the harness groups them); within a slot
 adjacent sends are merged, ghost events are dropped, tags are collected into one `B` line -/
-def render (evs : List Ev) : List String :=
+abbrev Screens := Array ScrW
+
+def scrLine (k : Nat) (r : ScrW) : String :=
+  "P scr " ++ toString k ++ " " ++ toString r.up ++ " " ++ toString r.col ++ " " ++ hexOfBytes (stripBlanks r.row)
+
+def render (scr : Screens) (evs : List Ev) : Screens × List String :=
   let a := evs.foldl (fun (a : RAcc) (e : Ev) =>
     match e with
     | .slot k => a.switch (min k 8)
-    | .tx _ bs => { a with pend := a.pend.setIfInBounds a.cur (a.pend.getD a.cur [] ++ bs), allTx := a.allTx ++ bs }
+    | .tx _ bs => { a with pend := a.pend.setIfInBounds a.cur (a.pend.getD a.cur [] ++ bs), allTx := a.allTx ++ bs,
+                           txs := a.txs.setIfInBounds a.cur (a.txs.getD a.cur [] ++ bs) }
+    | .sysc k tok => { a with sys := a.sys.setIfInBounds (min k 8) (tok :: a.sys.getD (min k 8) []) }
     | .probe id args => a.put ("P probe " ++ toString id ++ " " ++ toString args.length ++
         String.join (args.map fun x => " " ++ hexOfBytes x))
     | .endSess => a.put ("P end " ++ toString a.cur)
@@ -122,21 +157,50 @@ def render (evs : List Ev) : List String :=
     | _ => a) ({} : RAcc)
   let a := (List.range 9).foldl (fun a k => a.flush k) a
   let tags := a.tags.reverse ++ outcomeTags a.allTx
-  (if tags.isEmpty then [] else ["B " ++ " ".intercalate tags]) ++
-    ((List.range 9).map fun k => (a.lines.getD k []).reverse).flatten
+  -- the client's screen: every slot that was sent something in this op shows its current row and cursor
+  let scr' : Screens := (List.range 8).foldl (fun (sc : Screens) k =>
+    let tx := a.txs.getD k []
+    if tx.isEmpty then sc else sc.setIfInBounds k ((sc.getD k {}).feed tx)) scr
+  let extra (g : Nat) : List String :=
+    let ks := if g = 0 then [0, 1, 2, 3] else if g < 4 then [] else [g]
+    (ks.filterMap fun k => if k < 8 && !(a.txs.getD k []).isEmpty then some (scrLine k (scr'.getD k {})) else none) ++
+    (ks.filterMap fun k => if (a.sys.getD k []).isEmpty then none else some ("M sys " ++ toString k ++ " " ++ " ".intercalate (a.sys.getD k []).reverse))
+  (scr', (if tags.isEmpty then [] else ["B " ++ " ".intercalate tags]) ++
+    ((List.range 9).map fun g => (a.lines.getD g []).reverse ++ extra g).flatten)
 
-def stepLine (cfg : Cfg) (w : World) (line : String) : World × List String :=
+structure DSt where
+  w : World := {}
+  scr : Screens := Array.replicate 8 {}
+
+/-- the editor state of the session an input op was for (M line: internal) -/
+def edLine (w : World) (op : Op) : List String :=
+  let k? : Option Nat := match op with
+    | .recv _ => some w.cur | .xrecv k _ => some k | .xsock k _ _ _ => some k | .srecv _ => some 7 | _ => none
+  match k? with
+  | none => []
+  | some k =>
+    match (w.slot k).sess with
+    | none => []
+    | some s => ["M ed " ++ toString k ++ " " ++ toString s.cursor ++ " " ++ toString s.hidx ++ " " ++ hexOfBytes s.line]
+
+def stepLine (cfg : Cfg) (d : DSt) (line : String) : DSt × List String :=
   let ws := words line
   match ws with
-  | [] => (w, [])
+  | [] => (d, [])
   | "case" :: _ => ({}, [line.trimAscii.toString])
+  | ["scrw", n] =>
+    match n.toNat? with
+    | some v => if 4 ≤ v ∧ v ≤ 1000 then ({ d with scr := d.scr.map fun r => { r with w := v } }, ["P scrw"]) else (d, ["bad-op"])
+    | none => (d, ["bad-op"])
   | _ =>
     match parseOp ws with
-    | none => (w, ["bad-op"])
+    | none => (d, ["bad-op"])
     | some op =>
-      match step cfg w op with
-      | none => (w, ["bad-op"])
-      | some (w', evs) => (w', render evs)
+      match step cfg d.w op with
+      | none => (d, ["bad-op"])
+      | some (w', evs) =>
+        let r := render d.scr evs
+        ({ w := w', scr := r.1 }, r.2 ++ edLine w' op)
 
 def main (args : List String) : IO Unit :=
-  runDriver ({} : World) (stepLine (if args.contains "legacy" then Cfg.legacy else Cfg.fixed))
+  runDriver ({} : DSt) (stepLine (if args.contains "legacy" then Cfg.legacy else Cfg.fixed))
